@@ -202,3 +202,355 @@ Theorem request_items_wf L d :
 Proof.
   intros Hok H Hpd. rewrite (proj1 (ReportProofs.request_ok d Hok)). apply report_items_wf; assumption.
 Qed.
+
+(* ========================================================================================== *)
+(* (b) definition links                                                                        *)
+(* ========================================================================================== *)
+From GoldV Require Import Encase SymTab Scoping Annot DefTree AnnotProofs DefTreeProofs.
+From GoldV Require WsTree WsTreeProofs HierTree HierTreeProofs.
+
+Module W := WsTree.
+Module WP := WsTreeProofs.
+Module H := HierTree.
+Module HP := HierTreeProofs.
+
+(* a symbol whose two ranges are well formed within a document of L line feeds, the selection inside the range *)
+Definition SymWf (L : N) (a : asym) : Prop :=
+  RangeIn L (a_sel a) /\ RangeIn L (a_range a) /\ inside (a_sel a) (a_range a).
+
+Lemma Forall_nodes_idem (P : node -> Prop) t : Forall_nodes P t -> Forall_nodes (Forall_nodes P) t.
+Proof.
+  induction t as [k i r rg a ch IH] using LP.node_ind2. intro Ht.
+  apply Forall_nodes_unfold. split; [exact Ht|]. cbn [nchildren].
+  apply Forall_nodes_unfold in Ht as [_ Hch]. cbn [nchildren] in Hch.
+  rewrite Forall_forall in *. intros c Hc. exact (IH c Hc (Hch c Hc)).
+Qed.
+
+(* the name range the annotator stores: the K_ident token of a declaration, the name node of a method *)
+Lemma annot_name_range_in L p : WfTree L (snd p) -> decl_syms p <> [] -> RangeIn L (Annot.name_range (snd p)).
+Proof.
+  destruct p as [g n]. cbn [snd]. intros HW Hd.
+  pose proof (Forall_nodes_here _ _ HW) as (Hwf & Hl & [Hsel Hneed] & Hname).
+  unfold decl_syms, dkind_at in Hd. cbn [fst snd] in Hd. unfold Annot.name_range. unfold dkind_of in *.
+  destruct g; destruct (nkind n) eqn:Ek; try (exfalso; apply Hd; reflexivity);
+  try (destruct (attr_tok K_ident n) as [tk|] eqn:Ea;
+       [cbn [tok_range]; destruct (Hsel tk eq_refl) as (_ & Hi1 & Hi2); [intro Hc; discriminate|split; assumption]
+       |exfalso; apply Hneed; reflexivity]).
+  all: try (specialize (Hname (or_introl Ek))); try (specialize (Hname (or_intror Ek)));
+    destruct (nchildren n) as [|c l] eqn:Ec; try contradiction;
+    apply node_range_in; apply Forall_nodes_here; eapply Forall_nodes_child; [exact HW|rewrite Ec; left; reflexivity].
+Qed.
+
+(* every symbol of every table the annotator builds from a well-formed tree *)
+Theorem table_syms_wf L b t T a : WfTree L t -> In T (tables_of b t) -> In a (t_syms T) -> SymWf L a.
+Proof.
+  intros HW HT Ha.
+  assert (Hin : In a (flat_map t_syms (tables_of b t))) by (apply in_flat_map; exists T; auto).
+  apply (Permutation.Permutation_in _ (annot_one_symbol_per_declaration_all b t)) in Hin.
+  apply in_flat_map in Hin as (n & Hn & Hsn).
+  destruct (decl_syms_declares n a Hsn) as (_ & E1 & E2 & _).
+  pose proof (visit_seq_sub (Forall_nodes (NodeWf L)) b t (Forall_nodes_idem _ _ HW)) as Hall.
+  rewrite Forall_forall in Hall. specialize (Hall n Hn). cbv beta in Hall.
+  assert (decl_syms n <> []) as Hne by (intro E; rewrite E in Hsn; destruct Hsn).
+  unfold SymWf. rewrite E1, E2. split; [apply annot_name_range_in; assumption|].
+  split; [apply node_range_in; apply Forall_nodes_here; exact Hall|].
+  apply (name_range_inside L n); [apply Forall_nodes_here; exact Hall|exact Hne].
+Qed.
+
+(* ---- look-ups return symbols of the tables of the chain ---- *)
+Lemma find_in_In T id a : find_in T id = Some a -> In a (t_syms T).
+Proof.
+  unfold find_in, sym_at. destruct (scope_find (scope_of T) id); [|discriminate]. apply nth_error_In.
+Qed.
+
+Lemma lookup_In ch id T a : lookup ch id = Some (T, a) -> In T ch /\ In a (t_syms T).
+Proof.
+  induction ch as [|U ch IH]; cbn [lookup]; [discriminate|].
+  destruct (find_in U id) as [x|] eqn:E.
+  - intro Hx. inversion Hx; subst. split; [left; reflexivity|apply (find_in_In _ _ _ E)].
+  - intro Hx. destruct (IH Hx) as [A B]. split; [right; exact A|exact B].
+Qed.
+
+Lemma lookup_all_In ch id h : In h (lookup_all ch id) -> In (fst h) ch /\ In (snd h) (t_syms (fst h)).
+Proof.
+  induction ch as [|U ch IH]; cbn [lookup_all]; [intros []|]. intro Hh. apply in_app_or in Hh as [Hh|Hh].
+  - destruct (find_in U id) as [x|] eqn:E; [|destruct Hh]. destruct Hh as [<-|[]]. cbn [fst snd].
+    split; [left; reflexivity|apply (find_in_In _ _ _ E)].
+  - destruct (IH Hh) as [A B]. split; [right; exact A|exact B].
+Qed.
+
+Lemma class_level_t_incl ch : forall T, In T (class_level_t ch) -> In T ch.
+Proof.
+  induction ch as [|U ch IH]; intros T HT; [exact HT|]. cbn [class_level_t] in HT.
+  destruct ch as [|P r]; [exact HT|]. destruct (opt_str_eqb (t_cls P) (t_cls U)); [right; apply IH; exact HT|exact HT].
+Qed.
+
+(* ---- one document: DefTree.definition ---- *)
+
+(* every link is (selection range, range) of a symbol of a table of the document *)
+Definition LinkOfDoc (t : node) (l : link) : Prop :=
+  exists T a, In T (tables_of false t) /\ In a (t_syms T) /\ l = link_of a.
+
+Lemma def_single_from t stem ch oid ls :
+  (forall U, In U ch -> In U (tables_of false t)) -> def_single t stem ch oid = Ans ls -> Forall (LinkOfDoc t) ls.
+Proof.
+  intros Hch. unfold def_single. destruct oid as [id|]; [|intro E; inversion E; constructor].
+  destruct (lookup ch id) as [[T a]|] eqn:El.
+  - destruct (lookup_In _ _ _ _ El) as [A B]. destruct (indexed1 stem (cls_str T)); intro E; inversion E; [|constructor].
+    constructor; [|constructor]. exists T, a. auto.
+  - destruct (foreign t); [discriminate|]. intro E; inversion E. constructor.
+Qed.
+
+Lemma def_all_from t stem ch oid ls :
+  (forall U, In U ch -> In U (tables_of false t)) -> def_all t stem ch oid = Ans ls -> Forall (LinkOfDoc t) ls.
+Proof.
+  intros Hch. unfold def_all. destruct oid as [id|]; [|intro E; inversion E; constructor].
+  destruct (foreign_parent t); [discriminate|]. cbv zeta.
+  destruct (forallb _ _); intro E; inversion E; [|constructor].
+  apply Forall_forall. intros l Hl. apply in_map_iff in Hl as (h & <- & Hh).
+  destruct (lookup_all_In _ _ _ Hh) as [A B]. exists (fst h), (snd h). auto.
+Qed.
+
+Theorem definition_links_from t stem p ls : definition t stem p = Ans ls -> Forall (LinkOfDoc t) ls.
+Proof.
+  unfold definition. destruct (negb (flat_methods t)); [discriminate|]. cbv zeta.
+  destruct (chain_for t (descend p t)) as [ch|] eqn:Ec; [|discriminate].
+  pose proof (chain_for_tables _ _ _ Ec) as Hch.
+  assert (Hcl : forall U, In U (class_level_t ch) -> In U (tables_of false t)) by (intros U HU; apply Hch, class_level_t_incl, HU).
+  destruct (path_up p t) as [|[idx enc] up]; [discriminate|].
+  destruct up as [|[i q] up'].
+  - destruct (is_member_decl enc); [apply def_all_from|apply def_single_from]; assumption.
+  - destruct (is_dot q).
+    + destruct idx as [|idx]; [apply def_single_from; assumption|].
+      destruct (first_child q) as [lft|]; [|discriminate]. destruct (own_entity t lft) as [ent|]; [|discriminate].
+      destruct (in_method _); [|discriminate]. destruct (indexed1 stem ent); [apply def_all_from; assumption|].
+      intro E; inversion E; constructor.
+    + destruct (is_method_node q && Nat.eqb idx 0); [apply def_all_from; assumption|].
+      destruct (is_member_decl enc); [apply def_all_from|apply def_single_from]; assumption.
+Qed.
+
+(* definition_links_wf, one document: both ranges of every link are well formed within the document, the
+   selection range inside the range *)
+Theorem definition_links_wf_doc L t stem p ls :
+  WfTree L t -> definition t stem p = Ans ls ->
+  Forall (fun l => RangeIn L (fst l) /\ RangeIn L (snd l) /\ inside (fst l) (snd l)) ls.
+Proof.
+  intros HW Hd. eapply Forall_impl; [|exact (definition_links_from t stem p ls Hd)].
+  intros l (T & a & HT & Ha & ->). exact (table_syms_wf L false t T a HW HT Ha).
+Qed.
+
+(* ---- a workspace: WsTree.wdefinition ---- *)
+
+(* the table T belongs to document number j of the workspace (either annotation mode) *)
+Definition TableOf (ws : W.wst) (j : nat) (T : table) : Prop :=
+  exists d b, nth_error ws j = Some d /\ In T (tables_of b (snd d)).
+
+Definition ChainOf (ws : W.wst) (ch : list table) : Prop := forall T, In T ch -> exists j, TableOf ws j T.
+
+(* a hit: a symbol of a table of document number j *)
+Definition HitOf (ws : W.wst) (j : nat) (h : table * asym) : Prop := TableOf ws j (fst h) /\ In (snd h) (t_syms (fst h)).
+
+(* a link made from a hit of SOURCE document j; its target document is the one the class index gives for the
+   for_class_or_module of the hit's table *)
+Definition LinkFrom (ws : W.wst) (l : W.wlink) : Prop :=
+  exists j h, HitOf ws j h /\ W.target_of ws h = Some l.
+
+Lemma root_table_in b t : In (root_table_of b t) (tables_of b t).
+Proof. left. reflexivity. Qed.
+
+Lemma tables_along_of ws a path : ChainOf ws (W.tables_along ws a path).
+Proof.
+  intros T HT. unfold W.tables_along in HT. apply in_flat_map in HT as (j & _ & HT). unfold W.root_of in HT.
+  destruct (nth_error ws j) as [d|] eqn:E; [|destruct HT]. destruct HT as [<-|[]].
+  exists j, d, (negb (Nat.eqb j a)). split; [exact E|apply root_table_in].
+Qed.
+
+Lemma own_chain_of ws a ch : W.own_chain ws a = Ans ch -> ChainOf ws ch.
+Proof.
+  unfold W.own_chain. destruct (W.lineage_t ws a) as [|[c path]]; [discriminate|].
+  intro E; inversion E. apply tables_along_of.
+Qed.
+
+Lemma other_chain_of ws a j ch : W.other_chain ws a j = Ans ch -> ChainOf ws ch.
+Proof.
+  unfold W.other_chain. destruct (Nat.eqb j a); [apply own_chain_of|].
+  destruct (W.lineage_t ws j) as [|[[|] path]]; try discriminate. intro E; inversion E. apply tables_along_of.
+Qed.
+
+Lemma ChainOf_app ws c1 c2 : ChainOf ws c1 -> ChainOf ws c2 -> ChainOf ws (c1 ++ c2).
+Proof. intros H1 H2 T HT. apply in_app_or in HT as [HT|HT]; auto. Qed.
+
+Lemma ChainOf_tl ws c : ChainOf ws c -> ChainOf ws (tl c).
+Proof. intros Hc T HT. apply Hc. destruct c; [destruct HT|right; exact HT]. Qed.
+
+Lemma ChainOf_class_level ws c : ChainOf ws c -> ChainOf ws (class_level_t c).
+Proof. intros Hc T HT. apply Hc. apply class_level_t_incl. exact HT. Qed.
+
+Lemma full_chain_of ws a d steps full :
+  nth_error ws a = Some d -> W.full_chain ws a (snd d) steps = Ans full -> ChainOf ws full.
+Proof.
+  intros Hn. unfold W.full_chain. destruct (chain_for (snd d) steps) as [ch|] eqn:Ec; [|discriminate].
+  destruct (W.own_chain ws a) as [|oc] eqn:Eo; [discriminate|]. intro E; inversion E.
+  apply ChainOf_app; [|apply ChainOf_tl; eapply own_chain_of; exact Eo].
+  intros T HT. exists a, d, false. split; [exact Hn|]. exact (chain_for_tables _ _ _ Ec T HT).
+Qed.
+
+Lemma lookup_hit ws ch id h : ChainOf ws ch -> lookup ch id = Some h -> exists j, HitOf ws j h.
+Proof.
+  intros Hc El. destruct h as [T a]. destruct (lookup_In _ _ _ _ El) as [A B].
+  destruct (Hc T A) as [j Hj]. exists j. split; assumption.
+Qed.
+
+Lemma uses_search_hit ws a id : forall us h, W.uses_search ws a us id = Ans (Some h) -> exists j, HitOf ws j h.
+Proof.
+  induction us as [|u r IH]; intros h; cbn [W.uses_search]; [discriminate|].
+  destruct (W.find_doc ws u) as [[j dj]|]; [|apply IH].
+  destruct (W.other_chain ws a j) as [|ch] eqn:Eo; [discriminate|].
+  destruct (lookup ch id) as [h'|] eqn:El; [|apply IH].
+  intro E; inversion E; subst h'. eapply lookup_hit; [eapply other_chain_of; exact Eo|exact El].
+Qed.
+
+Lemma wsearch_hit ws a ch id h : ChainOf ws ch -> W.wsearch ws a ch id = Ans (Some h) -> exists j, HitOf ws j h.
+Proof.
+  intros Hc. unfold W.wsearch. destruct (lookup ch id) as [h'|] eqn:El.
+  - intro E; inversion E; subst h'. eapply lookup_hit; eassumption.
+  - apply uses_search_hit.
+Qed.
+
+Lemma wdef_single_from ws a ch oid ls : ChainOf ws ch -> W.wdef_single ws a ch oid = Ans ls -> Forall (LinkFrom ws) ls.
+Proof.
+  intros Hc. unfold W.wdef_single. destruct oid as [id|]; [|intro E; inversion E; constructor].
+  destruct (W.wsearch ws a ch id) as [|[h|]] eqn:Es; [discriminate| |intro E; inversion E; constructor].
+  destruct (wsearch_hit _ _ _ _ _ Hc Es) as [j Hj].
+  destruct (W.target_of ws h) as [l|] eqn:Et; intro E; inversion E; [|constructor].
+  constructor; [|constructor]. exists j, h. auto.
+Qed.
+
+Lemma wdef_all_from ws ch oid : ChainOf ws ch -> Forall (LinkFrom ws) (W.wdef_all ws ch oid).
+Proof.
+  intros Hc. unfold W.wdef_all. destruct oid as [id|]; [|constructor]. cbv zeta.
+  destruct (forallb _ _); [|constructor]. apply Forall_forall. intros l Hl.
+  apply in_flat_map in Hl as (o & Ho & Hl). apply in_map_iff in Ho as (h & <- & Hh).
+  destruct (W.target_of ws h) as [l'|] eqn:Et; [|destruct Hl]. destruct Hl as [<-|[]].
+  destruct (lookup_all_In _ _ _ Hh) as [A B]. destruct (Hc _ A) as [j Hj]. exists j, h. split; [split; assumption|exact Et].
+Qed.
+
+Lemma entity_chain_of ws a full ent ch :
+  ChainOf ws full -> W.entity_chain ws a full ent = Ans (Some ch) -> ChainOf ws ch.
+Proof.
+  intros Hc. unfold W.entity_chain. destruct (W.find_doc ws ent) as [[j dj]|]; [|discriminate].
+  destruct (Nat.eqb j a).
+  - intro E; inversion E. apply ChainOf_class_level. exact Hc.
+  - destruct (W.other_chain ws a j) as [|c] eqn:Eo; [discriminate|]. intro E; inversion E; subst c. eapply other_chain_of; exact Eo.
+Qed.
+
+Lemma wdef_rhs_from ws a t steps full q enc p ls :
+  ChainOf ws full -> W.wdef_rhs ws a t steps full q enc p = Ans ls -> Forall (LinkFrom ws) ls.
+Proof.
+  intros Hc. unfold W.wdef_rhs. destruct (first_child q) as [lft|]; [|discriminate].
+  destruct (own_entity t lft) as [ent|].
+  - destruct (in_method steps); [|discriminate].
+    destruct (W.entity_chain ws a full ent) as [|[ch|]] eqn:Ee; [discriminate| |intro E; inversion E; constructor].
+    intro E; inversion E. apply wdef_all_from. eapply entity_chain_of; eassumption.
+  - destruct (W.typed_entity ws a t steps lft) as [|[ent|]]; [discriminate| |intro E; inversion E; constructor].
+    destruct (W.entity_chain ws a full ent) as [|[ch|]] eqn:Ee; [discriminate| |intro E; inversion E; constructor].
+    intro E; inversion E. apply wdef_all_from. eapply entity_chain_of; eassumption.
+Qed.
+
+(* every link answered comes from a symbol of a table of some document of the workspace *)
+Theorem wdefinition_links_from ws a p ls : W.wdefinition ws a p = Ans ls -> Forall (LinkFrom ws) ls.
+Proof.
+  unfold W.wdefinition. destruct (negb (W.distinct_stems ws)); [discriminate|].
+  destruct (nth_error ws a) as [[stem t]|] eqn:En; [|discriminate].
+  destruct (negb (flat_methods t)); [discriminate|]. cbv zeta.
+  destruct (W.full_chain ws a t (descend p t)) as [|full] eqn:Ef; [discriminate|].
+  pose proof (full_chain_of ws a (stem, t) _ _ En Ef) as Hc.
+  destruct (path_up p t) as [|[idx enc] up]; [discriminate|].
+  destruct up as [|[i q] up'].
+  - destruct (is_member_decl enc); [intro E; inversion E; apply wdef_all_from; exact Hc|apply wdef_single_from; exact Hc].
+  - destruct (is_dot q).
+    + destruct idx as [|idx]; [apply wdef_single_from; exact Hc|apply wdef_rhs_from; exact Hc].
+    + destruct (is_method_node q && Nat.eqb idx 0);
+        [intro E; inversion E; apply wdef_all_from; apply ChainOf_class_level; exact Hc|].
+      destruct (is_member_decl enc); [intro E; inversion E; apply wdef_all_from; exact Hc|apply wdef_single_from; exact Hc].
+Qed.
+
+(* ---- the class index ---- *)
+Lemma find_doc_from_nth ws name : forall k j d, W.find_doc_from k ws name = Some (j, d) ->
+  (k <= j)%nat /\ nth_error ws (j - k) = Some d /\ ci_eqb (fst d) name = true.
+Proof.
+  induction ws as [|x ws IH]; intros k j d; cbn [W.find_doc_from]; [discriminate|].
+  destruct (ci_eqb (fst x) name) eqn:E.
+  - intro Hx; inversion Hx; subst. split; [lia|]. replace (j - j)%nat with O by lia. split; [reflexivity|exact E].
+  - intro Hx. destruct (IH _ _ _ Hx) as (A & B & C). split; [lia|]. replace (j - k)%nat with (S (j - S k)) by lia.
+    split; [exact B|exact C].
+Qed.
+
+Lemma find_doc_nth ws name j d : W.find_doc ws name = Some (j, d) -> nth_error ws j = Some d /\ ci_eqb (fst d) name = true.
+Proof.
+  intro Hf. destruct (find_doc_from_nth ws name 0 j d Hf) as (_ & B & C). replace (j - 0)%nat with j in B by lia. auto.
+Qed.
+
+(* the line counts of the documents of a workspace, document by document *)
+Definition WsWf (ws : W.wst) (Ls : list N) : Prop := Forall2 (fun d L => WfTree L (snd d)) ws Ls.
+
+Lemma WsWf_nth ws Ls j d : WsWf ws Ls -> nth_error ws j = Some d -> exists L, nth_error Ls j = Some L /\ WfTree L (snd d).
+Proof.
+  intro Hw. revert j. induction Hw as [|x L ws Ls Hx _ IH]; intros [|j] Hn; try discriminate.
+  - inversion Hn; subst. exists L. auto.
+  - apply IH. exact Hn.
+Qed.
+
+(* the general statement, no guard: both ranges of a link are well formed within its SOURCE document (the one
+   whose table holds the symbol), the selection range inside the range; the link names a document of the workspace *)
+Theorem definition_links_source_wf ws Ls a p ls :
+  WsWf ws Ls -> W.wdefinition ws a p = Ans ls ->
+  Forall (fun l : W.wlink =>
+            let '(stem, sel, rng) := l in
+            (exists k dt, W.find_doc ws stem = Some (k, dt) /\ fst dt = stem) /\
+            exists j L, (j < length ws)%nat /\ nth_error Ls j = Some L /\
+                        RangeIn L sel /\ RangeIn L rng /\ inside sel rng) ls.
+Proof.
+  intros Hw Hd.
+  assert (Hds : W.distinct_stems ws = true).
+  { unfold W.wdefinition in Hd. destruct (W.distinct_stems ws); [reflexivity|discriminate]. }
+  eapply Forall_impl; [|exact (wdefinition_links_from ws a p ls Hd)].
+  intros [[stem sel] rng] (j & [T s] & [(d & b & Hn & HT) Hs] & Ht). cbn [fst snd] in *.
+  unfold W.target_of in Ht. cbn [fst snd] in Ht.
+  destruct (W.find_doc ws (cls_str T)) as [[k dt]|] eqn:Ef; [|discriminate]. inversion Ht; subst stem sel rng.
+  destruct (find_doc_nth _ _ _ _ Ef) as [Hk _]. split.
+  - exists k, dt. split; [apply WP.find_doc_self; assumption|reflexivity].
+  - destruct (WsWf_nth _ _ _ _ Hw Hn) as (L & HL & HW). exists j, L.
+    split; [apply nth_error_Some; congruence|]. split; [exact HL|]. exact (table_syms_wf L b (snd d) T s HW HT Hs).
+Qed.
+
+(* the guard: the class index sends the for_class_or_module of every table of document j back to document j,
+   or nowhere.  (It holds when every document is named after the class / module it declares, stems distinct:
+   WsTreeProofs.ws_ok; it fails for a file A.god that declares class B next to a file B.god.) *)
+Definition TablesAtHome (ws : W.wst) : Prop :=
+  forall j d b T k dt, nth_error ws j = Some d -> In T (tables_of b (snd d)) -> t_syms T <> [] ->
+    W.find_doc ws (cls_str T) = Some (k, dt) -> k = j.
+
+(* definition_links_wf: every link names a document of the workspace, both ranges are well formed within THAT
+   document, and the selection range lies inside the range *)
+Theorem definition_links_wf ws Ls a p ls :
+  WsWf ws Ls -> TablesAtHome ws -> W.wdefinition ws a p = Ans ls ->
+  Forall (fun l : W.wlink =>
+            let '(stem, sel, rng) := l in
+            exists k dt L, W.find_doc ws stem = Some (k, dt) /\ fst dt = stem /\ nth_error Ls k = Some L /\
+                           RangeIn L sel /\ RangeIn L rng /\ inside sel rng) ls.
+Proof.
+  intros Hw Hg Hd.
+  assert (Hds : W.distinct_stems ws = true).
+  { unfold W.wdefinition in Hd. destruct (W.distinct_stems ws); [reflexivity|discriminate]. }
+  eapply Forall_impl; [|exact (wdefinition_links_from ws a p ls Hd)].
+  intros [[stem sel] rng] (j & [T s] & [(d & b & Hn & HT) Hs] & Ht). cbn [fst snd] in *.
+  unfold W.target_of in Ht. cbn [fst snd] in Ht.
+  destruct (W.find_doc ws (cls_str T)) as [[k dt]|] eqn:Ef; [|discriminate]. inversion Ht; subst stem sel rng.
+  destruct (find_doc_nth _ _ _ _ Ef) as [Hk _].
+  assert (k = j) as -> by (eapply Hg; try eassumption; intro E; rewrite E in Hs; destruct Hs).
+  rewrite Hn in Hk. inversion Hk; subst dt.
+  destruct (WsWf_nth _ _ _ _ Hw Hn) as (L & HL & HW). exists j, d, L.
+  split; [apply WP.find_doc_self; assumption|]. split; [reflexivity|]. split; [exact HL|].
+  exact (table_syms_wf L b (snd d) T s HW HT Hs).
+Qed.
